@@ -65,6 +65,7 @@ def jobs():
                  replay={"driver": "znx_elem", "fn": "znx_zero_i64_ref", "op": "zero"}))
     J += normalize_jobs()
     J += lemma_jobs()
+    J += avx_elem_jobs()
     return J
 
 
@@ -137,4 +138,23 @@ def lemma_jobs():
                                                                         "--no-signed-overflow-check", "--no-undefined-shift-check"],
                          functions=[], timeout=600, solver="race", tier="quick" if as_ <= 3 else "thorough",
                          bound_note="limb count %d, k=%d (all k and AS<=4 enumerated), all data" % (as_, kk)))
+    return J
+
+
+def avx_elem_jobs():
+    J = []
+    ops = [("add", 0, "znx_add_i64_avx"), ("sub", 1, "znx_sub_i64_avx"), ("negate", 2, "znx_negate_i64_avx")]
+    for nm, op, fn in ops:
+        for nn, tier in ((1, "quick"), (2, "quick"), (4, "quick"), (8, "quick"), (16, "quick"), (32, "quick"),
+                         (64, "thorough"), (256, "thorough"), (1024, "thorough")):
+            for alias in ((0, 1, 2, 3) if op < 2 else (0, 1)):
+                for ro in ((0, 1, 2, 3) if nn <= 64 else (1,)):
+                    J.append(Job(name="avx.znx_%s_i64_avx.nn%d.al%d.ro%d" % (nm, nn, alias, ro),
+                                 props=["C07", "C08", "C13", "C11", "C18"], shape="S4",
+                                 sources=["coeffs/coeffs_arithmetic_avx.c"], harness="avx_elem.c", entry="h_avx_elem",
+                                 no_dfcc=True, defines={"NN": nn, "ALIAS": alias, "OP": op, "RO": ro},
+                                 cbmc_flags=NOOVF + ["--unwind", str(nn + 2), "--unwinding-assertions"],
+                                 functions=[fn], timeout=900, tier=tier,
+                                 bound_note="length nn=%d (unwound), alias %d, misalignment %d*8 bytes; every lane value symbolic" % (nn, alias, ro),
+                                 replay={"driver": "znx_elem", "fn": fn, "op": {"add": "add", "sub": "sub", "negate": "neg"}[nm]}))
     return J
